@@ -1,5 +1,6 @@
 (* glue for the correspondence files Cases_C11*.v written by harness/c11:
-   one case = one history on the real app: the initial projection of the real stores, and for every
+   one case = one history on the real app from genesis: the number of validators, the fingerprint of
+   the real stores' projection at genesis, and for every
    operation what the real app did (accepted?, the touched validators' records, allowances,
    redelegation / unbonding entry counts, height); plus all validators at the end.
    shares_mismatch = true  iff  the model, run on the same operations, disagrees anywhere. *)
@@ -64,8 +65,11 @@ Definition digest (s : state) : Z :=
   let hu := fold_right (fun e acc => let '(d, w, _) := e in Z.land (acc + hmix [d; w]) hM) 0 (s_ubds s) in
   hmix [hv; ha; hr; hu].
 
-Record shares_case := { c_init : state; c_init_digest : Z; c_steps : list (op * sobs); c_final : list vstate }.
-Definition mk_shares_case i d s f : shares_case := {| c_init := i; c_init_digest := d; c_steps := s; c_final := f |}.
+(* every history starts at genesis: the model starts from M_Shares.gen_state (for which the invariant of
+   the theorems is proved) and the fingerprint of the real genesis projection must agree with it *)
+Record shares_case := { c_nvals : nat; c_init_digest : Z; c_steps : list (op * sobs); c_final : list vstate }.
+Definition mk_shares_case n d s f : shares_case := {| c_nvals := n; c_init_digest := d; c_steps := s; c_final := f |}.
+Definition c_init (c : shares_case) : state := gen_state (c_nvals c).
 
 Definition pair_eqb (x y : Z * Z) : bool := (fst x =? fst y) && (snd x =? snd y).
 Definition si_eqb (x y : sinfo) : bool :=
